@@ -528,6 +528,27 @@ def interpreter_option_cases(rng, n):
     return out
 
 
+def zone_order_cases(rng, n):
+    """several memory zones, and layout directives in one zone computed from address labels of another: whatever order the
+    assembler lays the zones out in, it is the same in every run"""
+    from .sysgen import num
+    out = []
+    for k in range(n):
+        names = rng.sample(['ram', 'rom', 'vec', 'io', 'stack', 'zz_a', 'b2', 'hi_mem'], 3)
+        zones = [[nm, 0x200 + 0x100 * i, 0x2ff + 0x100 * i] for i, nm in enumerate(names)]
+        base = dict(addr_bits=16, endian='big', origin=0, page=1, terminator=0, embedded=False, zones=zones, consts=[], data=[], syms=[], cli=[])
+        lab = lambda x: ('lab', x)
+        st = [['label', 'start'], ['data', 1, [num(1), num(2), num(3)]], ['label', 'code_end'],
+              ['memzone', names[0]], ['fill', ('bin', '-', lab('code_end'), lab('start')), num(0xEE)], ['label', 'z0_end'],
+              ['memzone', names[1]], ['zerountil', ('bin', '+', lab('z0_end'), num(0x105))], ['label', 'z1_end'],
+              ['memzone', names[2]], ['fill', ('bin', '-', lab('z1_end'), num(0x305)), num(7)],
+              ['memzone', 'GLOBAL'], ['data', 2, [lab('z0_end'), lab('z1_end')]]]
+        out.append({'cfg': base, 'files': [{'name': 'main.asm', 'dir': 'src', 'stmts': st}], 'include_dirs': [], 'extra_files': [],
+                    'opts': {'start': 0, 'end': None, 'fill': 0}, 'det_seed': rng.randrange(1 << 30), 'det_runs': 8, 'isa': {'macros': {}},
+                    'expect_ok': True})
+    return out
+
+
 def isa_determinism_oracle(n_quick=25, n_thorough=400):
     def gen(rng, tier):
         from . import sysisa
@@ -542,7 +563,8 @@ def isa_determinism_oracle(n_quick=25, n_thorough=400):
                 + symlink_include_cases(rng, 4 if q else 40) + multi_dir_cases(rng, 6 if q else 60)
                 + ambiguous_name_cases(rng, 8 if q else 60) + redefined_symbol_cases(rng, 8 if q else 80)
                 + operand_order_cases(rng, 10 if q else 100) + working_directory_cases(rng, 4 if q else 30)
-                + implied_operand_order_cases(rng, 8 if q else 80) + interpreter_option_cases(rng, 4 if q else 20))
+                + implied_operand_order_cases(rng, 8 if q else 80) + interpreter_option_cases(rng, 4 if q else 20)
+                + zone_order_cases(rng, 8 if q else 60))
     return Oracle(name='determinism_isa', gen=gen, check=_isa_determinism_check, nontrivial=lambda c: True,
                   classify=lambda c: 'isa', timeout=600)
 
@@ -712,6 +734,9 @@ def failclosed_oracle(n_quick=120, n_thorough=2500):
                 [f'.byte {digits} {digits}'], [f'.2byte %{ones}, b{ones},{blanks}$ffffffffffffffffffffffffff'],
                 [f'KLONG = {digits} +{blanks}%{ones}'], [f'.align {digits}x'], [f'ldi a, %{ones} {digits}'],
                 [f'lbl_{digits}:{blanks}nop']]
+        chain = ['#if LEVEL == 100'] + [x for k in range(40) for x in (f'#elif LEVEL == {101 + k}', f'.byte {k}')] + ['#else', '.byte 255', '#endif']
+        chain.insert(1, '.byte 254')
+        slow.append(chain)
         for k, lines in enumerate(slow):
             base = gen_program(random.Random(f'failclosed-slow-{k % 2}'), dict(prof, w={'label': 6, 'instr': 20, 'data': 10}), 'quick')
             main = base['files'][0]['stmts']
